@@ -4,10 +4,21 @@ Technique (docs/BUILDER_GUIDE.md):
   (A) spec/SetMap.tla    contract: sorted map with element identities + bag of cleanup calls
   (B) spec/Splay.tla     implementation-shaped: root, l, r, prev, next, count; set_splay transcribed
   TLC explores B completely over 7 keys (every call from every reachable tree shape), checks the
-  structural audit in every state and that every transition refines A.
+  structural audit in every state and that every transition refines A.  Insert takes the link values
+  found in the node object handed in; TLC checks that the outcome never depends on them (all four links
+  are written on every path; 3 keys: every combination of NULL / non-node / live node) and refutes the
+  Bug switch "no link written when a replacement emptied the tree".
   harness/h_set.c explores the REAL structure breadth-first over the same 7 keys (every call from
   every reachable shape, each on a fresh set) for each stock comparator and logs every call;
   TLC (spec/SetTrace.tla) evaluates the contract on every logged line: this is the oracle.
+  Every node the harness allocates has its links pointed at decoy objects; from every shape and every
+  key in it the node is taken out with no_dispose and inserted again with its stale links (as a new
+  key, as a replacement, into the emptied set, as a replacement of the only element); random histories
+  recycle kept nodes too.  A recycled node is a NEW element identity (fresh id).
+  String keys: spec/KeyOrder.tla states strcasecmp's C-locale order over character codes; TLC checks
+  every logged rank -> key table against it.  Universes 1..3 (7 keys each) are built from the
+  characters adjacent to the letter ranges (@ [ \ ] ^ _ ` { | digits, "", prefixes, case variants);
+  random histories draw 64..200 keys from all strings of length <= 2 over those characters.
   The real transition relation over shapes is compared with the model's (difference = DRIFT),
   model-generated behaviours are replayed on the real code (shape after every call = DRIFT check,
   contract = VIOLATION check), and long random call sequences over 64 (thorough: up to 200) keys
@@ -89,6 +100,26 @@ def _last_line(path):
     return lines[-1] if lines else ""
 
 
+def _kargs(u, x):
+    """harness arguments selecting the string-key universe"""
+    return ["-u", str(u), "-x", str(x)] if u else []
+
+
+def _keys_text(trace):
+    """The concrete keys of a recorded run, for the violation message (syntactic rendering of the Keys line)."""
+    try:
+        with open(trace) as f:
+            d = json.loads(f.readline())
+        if d.get("e") != "Keys" or d.get("cmp") != "charp":
+            return ""
+        def sp(codes):
+            return json.dumps("".join(chr(c) for c in codes))
+        return "; string keys by rank: " + ", ".join(
+            "%d=%s" % (i + 1, "/".join(sorted(set(sp(v) for v in ks)))) for i, ks in enumerate(d["keys"]) if i < 16)
+    except (OSError, ValueError, KeyError):
+        return ""
+
+
 def _validate(ctx, trace, timeout=900):
     """TLC evaluates the contract on a recorded trace.  Returns None if accepted, else
     (conjunct, rejected line number (1-based), TLC text)."""
@@ -112,6 +143,8 @@ def _validate(ctx, trace, timeout=900):
 
 def _op_cmd(d):
     o = d["o"]
+    if o == "ins" and d.get("rc") == 1:
+        return "J %d" % d["k"]          # the node object was a recycled one (taken out with no_dispose before)
     if o in ("ins", "find", "lower"):
         return "%s %d" % (OPC[o], d["k"])
     if o == "rem":
@@ -141,20 +174,20 @@ def _history_of(trace, lineno):
     return cur
 
 
-def _run_script(ctx, cmp_, n, cmds, tag):
+def _run_script(ctx, cmp_, n, cmds, tag, u=0, x=0):
     """Run a linear call sequence on a fresh harness process and validate it; returns (verdict, stderr)."""
     sp = os.path.join(ctx.scratch, "confirm-%s.script" % tag)
     tp = os.path.join(ctx.scratch, "confirm-%s.ndjson" % tag)
     with open(sp, "w") as f:
         f.write("R\n" + "\n".join(cmds) + "\n")
-    rc, summ, err = _harness(ctx, ["script", "-c", cmp_, "-n", str(n), "-o", tp, "-s", sp])
+    rc, summ, err = _harness(ctx, ["script", "-c", cmp_, "-n", str(n), "-o", tp, "-s", sp] + _kargs(u, x))
     if rc != 0 and not _last_line(tp).startswith('{"e":"Begin"'):
         raise core.MachineryError("h_set failed (rc %d) outside a call:\n%s" % (rc, err[-3000:]))
     v, _ = _validate(ctx, tp)
     return v, err
 
 
-def _minimise(ctx, cmp_, n, cmds, conjunct, budget_s=45):
+def _minimise(ctx, cmp_, n, cmds, conjunct, budget_s=45, u=0, x=0):
     """Greedy shortening of a failing call sequence (same conjunct must keep failing)."""
     t0 = time.time()
     cur = list(cmds)
@@ -170,7 +203,7 @@ def _minimise(ctx, cmp_, n, cmds, conjunct, budget_s=45):
                 i += chunk
                 continue
             k += 1
-            v, _ = _run_script(ctx, cmp_, n, cand, "min%d" % (k % 4))
+            v, _ = _run_script(ctx, cmp_, n, cand, "min%d" % (k % 4), u, x)
             if v and v[0] == conjunct:
                 cur, changed = cand, True
             else:
@@ -186,7 +219,7 @@ def _ptr_ok(cmds):
     present, dead = set(), set()
     for c in cmds:
         w = c.split()
-        if w[0] == "I":
+        if w[0] in ("I", "J"):
             k = int(w[1])
             if k in present or k in dead:
                 return False
@@ -204,21 +237,33 @@ def _ptr_ok(cmds):
     return True
 
 
-def _report(ctx, cmp_, n, cmds, verdict, origin, stderr=""):
+def _sig(cmp_, n, u, x, calls):
+    return "cmp=%s n=%d%s calls=%s" % (cmp_, n, " keys=u%d.x%d" % (u, x) if u else "",
+                                       ",".join(c.replace(" ", "") for c in calls))
+
+
+def _report(ctx, cmp_, n, cmds, verdict, origin, stderr="", u=0, x=0):
     """Confirm on a fresh process, minimise, report."""
     conjunct = verdict[0]
-    v2, err2 = _run_script(ctx, cmp_, n, cmds, "re")
+    v2, err2 = _run_script(ctx, cmp_, n, cmds, "re", u, x)
     if not v2:
         ctx.note("rejection (%s, %s) did not reproduce on a fresh process: not reported" % (cmp_, conjunct))
         return
     conjunct = v2[0]
-    small = _minimise(ctx, cmp_, n, cmds, conjunct) if len(cmds) > 3 else cmds
-    sig = "cmp=%s n=%d calls=%s" % (cmp_, n, ",".join(c.replace(" ", "") for c in small))
-    what = "%s; comparator %s, %d keys, %s; call sequence from an empty set: %s" % (
-        CONJUNCT_TEXT.get(conjunct, conjunct), cmp_, n, origin, " ; ".join(small))
-    san = (err2 or stderr or "")[-1500:]
-    ctx.violation(what, conjunct, sig, {"cmp": cmp_, "n": n, "calls": small, "conjunct": conjunct,
-                                        "sanitizer": san, "tlc": v2[2][:600]})
+    small = _minimise(ctx, cmp_, n, cmds, conjunct, u=u, x=x) if len(cmds) > 3 else cmds
+    v3, err3 = _run_script(ctx, cmp_, n, small, "fin", u, x)
+    if not v3:          # cannot happen (the minimiser only keeps failing sequences); be safe
+        small, v3, err3 = cmds, v2, err2
+    conjunct = v3[0]
+    legend = (" (J k = insert the node object of key k that an earlier call took out with no_dispose)"
+              if any(c.startswith("J") for c in small) else "")
+    what = "%s; comparator %s, %d keys%s, %s; call sequence from an empty set%s: %s" % (
+        CONJUNCT_TEXT.get(conjunct, conjunct), cmp_, n,
+        _keys_text(os.path.join(ctx.scratch, "confirm-fin.ndjson")), origin, legend, " ; ".join(small))
+    san = (err3 or stderr or "")[-1500:]
+    ctx.violation(what, conjunct, _sig(cmp_, n, u, x, small),
+                  {"cmp": cmp_, "n": n, "u": u, "x": x, "calls": small, "conjunct": conjunct,
+                   "sanitizer": san, "tlc": v3[2][:600]})
 
 
 # ------------------------------------------------------------------------------------------------
@@ -263,6 +308,7 @@ def _random_script(rng, cmp_, n, ncalls):
     """A long random history (well-formed for the comparator)."""
     out = ["R"]
     present, dead = set(), set()
+    keptk = set()     # ranks of which the harness holds a node taken out with no_dispose (links stale)
     keys = list(range(1, n + 1))
     # phases with different mixes so that the set grows large, shrinks, and is cleared now and then
     made = 0
@@ -280,9 +326,16 @@ def _random_script(rng, cmp_, n, ncalls):
                         if not free:
                             out.append("R")
                             present, dead = set(), set()
+                            keptk = set()
                             continue
                         k = rng.choice(free)
-                    out.append("I %d" % k)
+                    if cmp_ != "ptr" and keptk and rng.random() < 0.5:
+                        # recycle a kept node: as a new key, or replacing the element with the equal key
+                        k = rng.choice(sorted(keptk))
+                        keptk.discard(k)
+                        out.append("J %d" % k)
+                    else:
+                        out.append("I %d" % k)
                     present.add(k)
                 else:
                     k = rng.choice(sorted(present)) if rng.random() < 0.8 else k
@@ -292,6 +345,25 @@ def _random_script(rng, cmp_, n, ncalls):
                         present.discard(k)
                         if nd == 0:
                             dead.add(k)
+                        else:
+                            keptk.add(k)
+                    # drain: now and then take everything out and recycle the kept node into the empty set, or
+                    # let it replace the only element (a fresh one with the equal key)
+                    if cmp_ != "ptr" and k in keptk and len(present) <= 3 and rng.random() < 0.5:
+                        for q in sorted(present):
+                            nd2 = rng.randint(0, 1)
+                            out.append("D %d %d" % (q, nd2))
+                            if nd2:
+                                keptk.add(q)
+                            made += 1
+                        present = set()
+                        if rng.random() < 0.5:
+                            out.append("I %d" % k)
+                            made += 1
+                        out.append("J %d" % k)
+                        made += 1
+                        keptk.discard(k)
+                        present.add(k)
             elif x < 0.65:
                 out.append("F %d" % rng.choice(keys))
             elif x < 0.85:
@@ -299,7 +371,13 @@ def _random_script(rng, cmp_, n, ncalls):
             elif x < 0.93:
                 # replace an equal key (not possible with the node-address comparator)
                 if present and cmp_ != "ptr":
-                    out.append("I %d" % rng.choice(sorted(present)))
+                    both = sorted(present & keptk)
+                    if both and rng.random() < 0.5:
+                        k = rng.choice(both)
+                        keptk.discard(k)
+                        out.append("J %d" % k)
+                    else:
+                        out.append("I %d" % rng.choice(sorted(present)))
                 else:
                     out.append("W")
             elif x < 0.995:
@@ -309,6 +387,8 @@ def _random_script(rng, cmp_, n, ncalls):
                 out.append("C %d" % nd)
                 if nd == 0:
                     dead |= present
+                else:
+                    keptk |= present
                 present = set()
             made += 1
     return out
@@ -324,7 +404,7 @@ def run(ctx):
     sc = ctx.scratch
     NK = 7
     ex = ThreadPoolExecutor(max_workers=16)
-    failures = []          # (cmp, n, calls, verdict, origin, stderr)
+    failures = []          # (cmp, n, calls, verdict, origin, stderr, string universe u, key draw x)
     abnormal = []          # explorations that met shapes which cannot be a set (must come with a rejection)
 
     # ---- 1. model: exhaustive TLC runs (in the background) ---------------------------------------
@@ -337,60 +417,76 @@ def run(ctx):
         f_model8 = ex.submit(_tlc, ctx, "MCSplay", "MCSplay8emit.cfg", workers=8, timeout=1500, heap="8g",
                              stdout_path=emit8_path, java_opts=["-XX:ParallelGCThreads=4"])
     f_contract = ex.submit(_tlc, ctx, "MCSetMap", "MCSetMap.cfg", workers=2, timeout=600, heap="2g", java_opts=JOPTS)
+    # the order the string comparator stands for (KeyOrder.tla) is a strict total order on case classes
+    f_order = ex.submit(_tlc, ctx, "MCKeyOrder", "MCKeyOrder.cfg", workers=1, timeout=300, heap="1g", java_opts=JOPTS)
+    # set_insert writes every link of the node it is given: any stale link values (NULL / non-node / live node)
+    f_stale = ex.submit(_tlc, ctx, "MCSplay", "MCSplay4stale.cfg" if thorough else "MCSplay3stale.cfg", workers=4,
+                        timeout=900, heap="2g", java_opts=JOPTS)
+    # ... and the model can tell: the Bug switch must be refuted (structural audit; the explicit statement)
+    f_bug = [ex.submit(_tlc, ctx, "MCSplay", c, workers=1, timeout=300, heap="1g", java_opts=JOPTS)
+             for c in ("MCSplay3bug.cfg", "MCSplay3bugI.cfg")]
 
     # ---- 2. real code: own breadth-first exploration, every comparator ----------------------------
-    def bfs_job(cmp_, n, parts):
-        base = os.path.join(sc, "bfs-%s-%d" % (cmp_, n))
+    def bfs_job(cmp_, n, parts, u, recycle):
+        base = os.path.join(sc, "bfs-%s-%d-u%d" % (cmp_, n, u))
         rc, summ, err = _harness(ctx, ["bfs", "-c", cmp_, "-n", str(n), "-o", base, "-P", str(parts),
-                                       "-t", base + ".trans"])
-        return cmp_, n, base, rc, summ, err, parts
+                                       "-t", base + ".trans", "-r", str(recycle)] + _kargs(u, 0))
+        return cmp_, n, base, rc, summ, err, parts, u
 
-    def val_job(cmp_, n, path, origin, err):
+    def val_job(cmp_, n, path, origin, err, u):
         v, r = _validate(ctx, path)
-        return cmp_, n, path, v, origin, err, r
+        return cmp_, n, path, v, origin, err, r, u
 
-    # quick: the two pointer comparators over 6 keys (7 in thorough); int and char* always over 7
+    # (comparator, keys, trace parts, string universe, with the recycling sequences)
+    # quick: the two pointer comparators over 6 keys (7 in thorough); int and char* always over 7;
+    # the boundary-character universes 1..3 of the string comparator without the recycling sequences
+    # (link handling does not depend on the comparator; universe 0 and the other comparators have them)
     if thorough:
-        plan_bfs = [(c, NK, 4) for c in CMPS] + [("int", 8, 12)]
+        plan_bfs = [(c, NK, 8, 0, 1) for c in CMPS] + [("charp", NK, 8, u, 1) for u in (1, 2, 3)] + [("int", 8, 16, 0, 1)]
     else:
-        plan_bfs = [("int", NK, 3), ("charp", NK, 3), ("voidp", 6, 1), ("ptr", 6, 1)]
+        plan_bfs = [("int", NK, 6, 0, 1), ("charp", NK, 6, 0, 1), ("voidp", 6, 2, 0, 1), ("ptr", 6, 1, 0, 1)] \
+                   + [("charp", NK, 3, u, 0) for u in (1, 2, 3)]
     bfs_runs = [ex.submit(bfs_job, *a) for a in plan_bfs]
     vals = []
     real_trans = {}
     stats = {}
     for fu in bfs_runs:
-        cmp_, n, base, rc, summ, err, parts = fu.result()
+        cmp_, n, base, rc, summ, err, parts, u = fu.result()
         crashed = rc != 0
         if crashed:
             begun = [p for p in range(parts) if _last_line("%s.%d" % (base, p)).startswith('{"e":"Begin"')]
             if not begun:
                 raise core.MachineryError("h_set bfs failed (rc %d) outside a call:\n%s" % (rc, err[-3000:]))
         else:
-            stats[(cmp_, n)] = summ
+            stats[(cmp_, n, u)] = summ
             with open(base + ".trans") as f:
-                real_trans[(cmp_, n)] = set(x.strip() for x in f)
+                real_trans[(cmp_, n, u)] = set(x.strip() for x in f)
             if summ["capped"] or summ["not_expanded"]:
                 abnormal.append((cmp_, n, summ))
         for p in range(parts):
-            vals.append(ex.submit(val_job, cmp_, n, "%s.%d" % (base, p), "exhaustive exploration of the real structure", err))
+            vals.append(ex.submit(val_job, cmp_, n, "%s.%d" % (base, p), "exhaustive exploration of the real structure"
+                                  + (" (string universe %d)" % u if u else ""), err, u))
 
     # ---- 3. long random histories over larger universes (seeded) -----------------------------------
+    # (comparator, keys, calls, repetitions, string universe): universe 1 = keys drawn (per repetition) from all
+    # strings of length <= 2 over the characters adjacent to the letter ranges
     rnd = []
     if thorough:
-        plan = [(c, 64, 4000, 6) for c in CMPS] + [(c, 200, 3000, 2) for c in CMPS]
+        plan = [(c, 64, 4000, 6, 0) for c in CMPS] + [(c, 200, 3000, 2, 0) for c in CMPS] \
+               + [("charp", 64, 4000, 6, 1), ("charp", 200, 3000, 2, 1), ("charp", 20, 2000, 4, 1)]
     else:
-        plan = [(c, 64, 1000, 1) for c in CMPS]
-    for cmp_, n, ncalls, reps in plan:
+        plan = [(c, 64, 1000, 1, 0) for c in CMPS] + [("charp", 64, 1000, 2, 1), ("charp", 20, 600, 2, 1)]
+    for cmp_, n, ncalls, reps, u in plan:
         for rep in range(reps):
             cmds = _random_script(ctx.rng, cmp_, n, ncalls)
-            rnd.append((cmp_, n, rep, cmds))
+            rnd.append((cmp_, n, rep, cmds, u, ctx.rng.randrange(1, 1 << 30) if u else 0))
 
-    def rnd_job(cmp_, n, rep, cmds):
-        sp = os.path.join(sc, "rnd-%s-%d-%d.script" % (cmp_, n, rep))
-        tp = os.path.join(sc, "rnd-%s-%d-%d.ndjson" % (cmp_, n, rep))
+    def rnd_job(cmp_, n, rep, cmds, u, x):
+        sp = os.path.join(sc, "rnd-%s-%d-u%d-%d.script" % (cmp_, n, u, rep))
+        tp = os.path.join(sc, "rnd-%s-%d-u%d-%d.ndjson" % (cmp_, n, u, rep))
         with open(sp, "w") as f:
             f.write("\n".join(cmds) + "\n")
-        rc, summ, err = _harness(ctx, ["script", "-c", cmp_, "-n", str(n), "-o", tp, "-s", sp])
+        rc, summ, err = _harness(ctx, ["script", "-c", cmp_, "-n", str(n), "-o", tp, "-s", sp] + _kargs(u, x))
         if rc != 0 and not _last_line(tp).startswith('{"e":"Begin"'):
             raise core.MachineryError("h_set script failed (rc %d) outside a call:\n%s" % (rc, err[-3000:]))
         v, r = _validate(ctx, tp)
@@ -400,7 +496,7 @@ def run(ctx):
         d = None
         if not v and rc == 0:
             d = _drift_check(ctx, tp)
-        return cmp_, n, tp, v, "random history (seed %d)" % ctx.seed, err, r, summ, d
+        return cmp_, n, tp, v, "random history (seed %d)" % ctx.seed, err, r, summ, d, u, x
 
     rnd_runs = [ex.submit(rnd_job, *a) for a in rnd]
 
@@ -412,8 +508,31 @@ def run(ctx):
     rc_ = f_contract.result()
     if not rc_.ok:
         raise core.MachineryError("model-only TLC run of SetMap.tla failed (%s)\n%s" % (rc_.violated, rc_.violation_text[:2000]))
+    ro = f_order.result()
+    if not ro.ok:
+        raise core.MachineryError("KeyOrder.tla: the stated string order is not a strict total order on case classes "
+                                  "(%s)\n%s" % (ro.violated, ro.violation_text[:2000]))
+    rs = f_stale.result()
+    if not rs.ok:
+        raise core.MachineryError("model-only TLC run of Splay.tla with arbitrary stale links failed (%s): the "
+                                  "specification is wrong, not the code\n%s" % (rs.violated, rs.violation_text[:3000]))
+    refuted = []
+    for fu, want in zip(f_bug, (("TypeOK", "SearchTreeOrder", "TreeIsAllNodes", "ListIsInOrder", "CountOK", "Refines"),
+                                ("InsertIgnoresStale",))):
+        rb = fu.result()
+        if rb.ok or rb.violated not in want:
+            raise core.MachineryError("Splay.tla with BugStaleLinks = TRUE was not refuted by TLC (%s): the model "
+                                      "cannot see unwritten links\n%s" % (rb.violated, rb.violation_text[:1500]))
+        refuted.append(rb.violated)
     ctx.model_checked(rm)
     ctx.model_checked(rc_)
+    ctx.model_checked(rs)
+    ctx.cov["stale_link_model"] = {"cfg": "MCSplay4stale.cfg" if thorough else "MCSplay3stale.cfg",
+                                   "shapes": rs.distinct, "transitions": rs.generated - 1,
+                                   "bug_switch_refuted_by": refuted}
+    ctx.note("Splay.tla with every combination of stale links in the inserted node (%s): %d shapes, %d transitions, "
+             "InsertIgnoresStale + audit + refinement hold; BugStaleLinks refuted (%s)"
+             % (ctx.cov["stale_link_model"]["cfg"], rs.distinct, rs.generated - 1, ", ".join(refuted)))
     ctx.cov["exhaustive"] = True
     ctx.cov["model_shapes_7_keys"] = rm.distinct
     ctx.cov["model_transitions_7_keys"] = rm.generated - 1
@@ -445,20 +564,25 @@ def run(ctx):
     # ---- collect validation of the real traces ---------------------------------------------------------
     lines = 0
     traces = 0
+    rnd_rc = {}
     for fu in vals:
-        cmp_, n, path, v, origin, err, r = fu.result()
+        cmp_, n, path, v, origin, err, r, u = fu.result()
         lines += r.distinct - 1
         if v:
-            failures.append((cmp_, n, _history_of(path, v[1]), v, origin, err))
+            failures.append((cmp_, n, _history_of(path, v[1]), v, origin, err, u, 0))
     for fu in rnd_runs:
-        cmp_, n, path, v, origin, err, r, summ, d = fu.result()
+        cmp_, n, path, v, origin, err, r, summ, d, u, x = fu.result()
         lines += r.distinct - 1
         if v:
-            failures.append((cmp_, n, _history_of(path, v[1]), v, origin, err))
+            failures.append((cmp_, n, _history_of(path, v[1]), v, origin, err, u, x))
         else:
             ctx.cov["random_calls"] = ctx.cov.get("random_calls", 0) + summ["logged"]
             ctx.cov["evaluations"] += summ["calls"]
             traces += summ["histories"]
+            for key, c in summ["recycled"].items():
+                rnd_rc[key] = rnd_rc.get(key, 0) + c
+            if u:
+                ctx.cov["random_calls_boundary_strings"] = ctx.cov.get("random_calls_boundary_strings", 0) + summ["logged"]
             if d:
                 ctx.drift("random history over %d keys (%s): tree shape differs from Splay.tla at trace line %d"
                           % (n, cmp_, d), {"trace": os.path.basename(path)})
@@ -467,7 +591,7 @@ def run(ctx):
         cmp_, n, path, v, origin, err, r, summ, nb = fu.result()
         lines += r.distinct - 1
         if v:
-            failures.append((cmp_, n, _history_of(path, v[1]), v, origin, err))
+            failures.append((cmp_, n, _history_of(path, v[1]), v, origin, err, 0, 0))
         else:
             beh_replayed += nb
             ctx.cov["evaluations"] += summ["calls"]
@@ -505,14 +629,19 @@ def run(ctx):
                 todo.append(post)
     model_by_n[6] = m6
     distinct = 0
-    for (cmp_, n), rt in sorted(real_trans.items()):
-        s = stats[(cmp_, n)]
+    bfs_rc = {}
+    for (cmp_, n, u), rt in sorted(real_trans.items()):
+        s = stats[(cmp_, n, u)]
         ctx.cov["evaluations"] += s["calls"]
-        traces += s["histories"] + len(rt)       # one history to each shape + one per branch call from it
+        # one history to each shape + one per branch call from it + one per recycling sequence
+        traces += s["histories"] + len(rt) + s["composites"]
         distinct += sum(1 for t in rt if not t.startswith("0;") or ";ins;" in t)
-        ctx.cov.setdefault("real_shapes", {})["%s/%d" % (cmp_, n)] = s["shapes"]
-        for key in ("cleanup_calls", "replacing_inserts", "hits", "misses"):
+        ctx.cov.setdefault("real_shapes", {})["%s/%d%s" % (cmp_, n, "/u%d" % u if u else "")] = s["shapes"]
+        for key in ("cleanup_calls", "replacing_inserts", "hits", "misses", "poisoned_inserts"):
             ctx.cov[key] = ctx.cov.get(key, 0) + s[key]
+        ctx.cov["recycling_sequences"] = ctx.cov.get("recycling_sequences", 0) + s["composites"]
+        for key, c in s["recycled"].items():
+            bfs_rc[key] = bfs_rc.get(key, 0) + c
         for o, c in s["ops"].items():
             ctx.cov.setdefault("calls_logged_by_kind", {}).setdefault(o, 0)
             ctx.cov["calls_logged_by_kind"][o] += c
@@ -524,19 +653,32 @@ def run(ctx):
         if missing or extra:
             ex1 = sorted(extra)[:2] + sorted(missing)[:2]
             ctx.drift("transition relation over tree shapes (%s, %d keys): %d real transitions unknown to Splay.tla, "
-                      "%d model transitions not taken by the code; e.g. %s" % (cmp_, n, len(extra), len(missing), ex1))
+                      "%d model transitions not taken by the code; e.g. %s"
+                      % (cmp_ + ("/u%d" % u if u else ""), n, len(extra), len(missing), ex1))
+    ctx.cov["recycled_inserts_exhaustive"] = bfs_rc
+    ctx.cov["recycled_inserts_random"] = rnd_rc
     ctx.cov["distinct_nontrivial"] = distinct
     ctx.cov["rule"] = ("distinct (comparator, tree shape before, call with arguments) transitions executed on the real "
                        "set.c by the harness's own breadth-first exploration (every call from every reachable shape over "
-                       "7 keys per stock comparator); non-trivial = the set is non-empty before the call or the call inserts. "
+                       "7 keys per stock comparator and, for the string comparator, per key universe; the calls of the "
+                       "recycling sequences count as transitions from the shape before them); non-trivial = the set is "
+                       "non-empty before the call or the call inserts. "
                        "evaluations = API calls executed on the real code (including rebuilding each shape along its "
                        "shortest history). traces_validated_against_impl = histories from an empty set validated by TLC "
-                       "(one per reachable shape, one per branch call from it, model behaviours, random histories).")
+                       "(one per reachable shape, one per branch call from it, one per recycling sequence, model "
+                       "behaviours, random histories). recycled_inserts_*: insertions of a node object taken out with "
+                       "no_dispose earlier; 'stale' = its links were not all NULL; by the set it went into.")
     ctx.cov["traces_validated_against_impl"] = traces
     if not failures:
         # anti-vacuity: every kind of call, cleanup and replacement must have been exercised
-        if set(stats) != set((c, n) for c, n, _ in plan_bfs):
+        if set(stats) != set((a[0], a[1], a[3]) for a in plan_bfs):
             raise core.MachineryError("an exploration of the real structure is missing: %s" % sorted(stats))
+        for key in ("into_empty", "replace_only_element", "new_key", "replace"):
+            if not bfs_rc.get(key) or not rnd_rc.get(key):
+                raise core.MachineryError("recycled node with stale links never inserted (%s): exhaustive %s, random %s"
+                                          % (key, bfs_rc, rnd_rc))
+        if not ctx.cov.get("poisoned_inserts") or not ctx.cov.get("random_calls_boundary_strings"):
+            raise core.MachineryError("poisoned node links / boundary-character string keys never exercised")
         for o in OPC:
             if not ctx.cov["calls_logged_by_kind"].get(o):
                 raise core.MachineryError("call kind %s was never exercised" % o)
@@ -547,12 +689,17 @@ def run(ctx):
         ctx.sample({"transition (shape;call;k;no_dispose;shape after)": t})
     if behs:
         ctx.sample({"model behaviour replayed": [(e["o"], e["k"], e["nd"]) for e in behs[len(behs) // 2]]})
-    for cmp_, n, rep, cmds in rnd[:2]:
+    for cmp_, n, rep, cmds, u, x in rnd[:2]:
         ctx.sample({"random history (%s, %d keys), first calls" % (cmp_, n): cmds[:25]})
     ctx.assumptions += [
         "rank -> concrete key tables of harness/h_set.c are ascending in the comparator's mathematical order "
         "(checked by TLC for int and char* keys from the logged table; pointer keys are sorted by address in the harness)",
         "int keys include INT_MIN, -2000000000, -1, 0, 1, 2000000000, INT_MAX; char* keys include case variants that compare equal",
+        "set_compare_charp stands for strcasecmp in the C locale as stated in spec/KeyOrder.tla (bytes compared after "
+        "mapping A-Z to a-z only); string keys are ASCII: \"\", digits, letters and @ [ \\ ] ^ _ ` { | ~ (bytes >= 128 "
+        "and other locales are not exercised)",
+        "a node object taken out with no_dispose and inserted again is a NEW element identity: the old identity was handed "
+        "back and must never be cleaned up, the new one exactly once when it is disposed",
         "set_compare_ptr: exhaustive exploration uses no_dispose removals only (a freed node's address cannot be re-inserted); "
         "disposal with that comparator is covered by the random histories",
         "memory errors are observed through ASan/UBSan instrumented code only",
@@ -566,14 +713,14 @@ def run(ctx):
     # ---- verdicts ------------------------------------------------------------------------------------------
     seen = set()
     failures.sort(key=lambda f: (len(f[2]), f[0]))
-    for cmp_, n, cmds, v, origin, err in failures:
+    for cmp_, n, cmds, v, origin, err, u, x in failures:
         key = (cmp_, v[0])
         if key in seen:
             continue
         seen.add(key)
         if len(seen) > 8:
             break
-        _report(ctx, cmp_, n, cmds, v, origin, err)
+        _report(ctx, cmp_, n, cmds, v, origin, err, u, x)
 
 
 def _ptr_transition_possible(t):
@@ -599,14 +746,16 @@ def _drift_check(ctx, trace):
 
 def replay(ctx, body):
     rp = body["replay"]
-    v, err = _run_script(ctx, rp["cmp"], rp["n"], rp["calls"], "replay")
+    u, x = rp.get("u", 0), rp.get("x", 0)
+    v, err = _run_script(ctx, rp["cmp"], rp["n"], rp["calls"], "replay", u, x)
     ctx.cov["evaluations"] = len(rp["calls"])
     ctx.cov["distinct_nontrivial"] = len(set(rp["calls"]))
     ctx.cov["rule"] = "replay of one recorded failing call sequence"
     ctx.sample(rp["calls"])
     if v:
-        sig = "cmp=%s n=%d calls=%s" % (rp["cmp"], rp["n"], ",".join(c.replace(" ", "") for c in rp["calls"]))
-        ctx.violation("%s; replayed call sequence: %s" % (CONJUNCT_TEXT.get(v[0], v[0]), " ; ".join(rp["calls"])),
-                      v[0], sig, dict(rp, sanitizer=err[-1500:], tlc=v[2][:600]))
+        ctx.violation("%s; replayed call sequence%s: %s" % (
+            CONJUNCT_TEXT.get(v[0], v[0]), _keys_text(os.path.join(ctx.scratch, "confirm-replay.ndjson")),
+            " ; ".join(rp["calls"])), v[0], _sig(rp["cmp"], rp["n"], u, x, rp["calls"]),
+            dict(rp, sanitizer=err[-1500:], tlc=v[2][:600]))
     else:
         ctx.note("replayed call sequence is accepted by the contract")
